@@ -34,6 +34,10 @@ func sweepCases(tier string, o sweepOpts) []Case {
 	if o.c01 || o.c02 {
 		cs = append(cs, Case{ID: "trees/truth-table", Run: func() CaseResult { return treeCase(o) }})
 		cs = append(cs, Case{ID: "batch-boundaries", Run: func() CaseResult { return batchBoundaryCase(o) }})
+		cs = append(cs, Case{ID: "merge-shapes/pairs", Run: func() CaseResult { return mergeShapeCase(o, false) }})
+		if tier == "thorough" {
+			cs = append(cs, Case{ID: "merge-shapes/triples", Run: func() CaseResult { return mergeShapeCase(o, true) }})
+		}
 	}
 	return cs
 }
@@ -41,7 +45,7 @@ func sweepCases(tier string, o sweepOpts) []Case {
 func init() {
 	modes["C01"] = ModeSpec{
 		Cases: func(t string) []Case { return sweepCases(t, sweepOpts{c01: true}) },
-		Rule:  "every (row, atomic condition) pair of the row/condition alphabets on every layout (flush splits, partitions, compressions, rates, merges, external writer), AND/OR trees over a truth-table corpus, prefilter trees over a numeric/partition corpus; a case is non-trivial when the query returns at least one row; oracle: independent encoding/json walker (T1) + unpruned-layout differential (T2)",
+		Rule:  "every (row, atomic condition) pair of the row/condition alphabets on every layout (flush splits, partitions, compressions, rates, merges, external writer), AND/OR trees over a truth-table corpus, prefilter trees over a numeric/partition corpus; every ordered pair (thorough: triples) of minmax interval shapes x file size assignments merged and queried with every threshold prefilter; a case is non-trivial when the query returns at least one row; oracle: independent encoding/json walker (T1) + unpruned-layout differential (T2)",
 	}
 	modes["C02"] = ModeSpec{
 		Cases: func(t string) []Case { return sweepCases(t, sweepOpts{c02: true}) },
@@ -588,4 +592,130 @@ func (p *probes) differs(w *World) string {
 		}
 	}
 	return ""
+}
+
+// ---- merged ranges: every ordered pair / triple of interval shapes -----------------------
+//
+// Files whose blocks carry minmax ranges from a small interval alphabet are merged in every
+// order the engine can choose (file size decides the merge order, so each shape is written
+// small and large); afterwards every threshold prefilter must still return every row whose
+// own value satisfies it (C01) and nothing outside the whole-block rule (C02).
+
+func mergeShapeCase(o sweepOpts, triples bool) CaseResult {
+	var res CaseResult
+	intervals := [][2]int{{5, 5}, {0, 10}, {3, 7}, {0, 5}, {5, 10}, {20, 30}, {-4, 4}}
+	mkRows := func(id string, iv [2]int, big bool) []map[string]any {
+		rows := []map[string]any{{"id": id + "lo", "n": iv[0], "t": "x"}, {"id": id + "hi", "n": iv[1], "t": "x"}}
+		if big {
+			for k := 0; k < 6; k++ {
+				rows = append(rows, map[string]any{"id": fmt.Sprintf("%sf%d", id, k), "n": (iv[0] + iv[1]) / 2, "t": "filler filler filler filler"})
+			}
+		}
+		return rows
+	}
+	thresholds := map[int]bool{}
+	for _, iv := range intervals {
+		for _, e := range iv {
+			thresholds[e-1], thresholds[e], thresholds[e+1] = true, true, true
+		}
+	}
+	outcomes := map[string]bool{}
+	run := func(shape []int, bigMask int) {
+		cfg := quietConfig()
+		cfg.RowDataCompression = bs.CompressionNone
+		cfg.BloomFalsePositiveRate = 0.01
+		cfg.MinMaxIndexes = []string{"n"}
+		cfg.MaxFilesToMergePerOperation = 8
+		w, err := newWorld(cfg, nil)
+		if err != nil {
+			res.Findings = append(res.Findings, fnd("setup", "%v", err))
+			return
+		}
+		defer w.Close()
+		name := ""
+		for i, s := range shape {
+			big := bigMask&(1<<i) != 0
+			name += fmt.Sprintf("[%d,%d]%s ", intervals[s][0], intervals[s][1], map[bool]string{true: "L", false: "s"}[big])
+			if err := w.Put(mkRows(fmt.Sprintf("f%d", i), intervals[s], big)); err != nil {
+				res.Findings = append(res.Findings, fnd("setup-ingest", "%v", err))
+				return
+			}
+		}
+		if err := mergeAll(w, w.Eng, 3); err != nil {
+			res.Findings = append(res.Findings, fnd("setup-merge", "merge shapes %s: %v", name, err))
+			return
+		}
+		si, err := indexWorld(w)
+		if err != nil {
+			res.Findings = append(res.Findings, fnd("layout-readback", "%v", err))
+			return
+		}
+		outcomes[fmt.Sprintf("%d blocks", len(si.blocks))] = true
+		indexed := map[string]bool{"n": true}
+		for t := range thresholds {
+			for _, c := range []bs.NumericCondition{bs.NumericGreaterThan(int64(t)), bs.NumericLessThan(int64(t)), bs.NumericEquals(int64(t)), bs.NumericBetween(int64(t), int64(t+2))} {
+				pe := bs.MinMax("n", c)
+				q := &bs.Query{Prefilter: &bs.QueryPrefilter{Expression: &pe}}
+				qr := w.Query(q)
+				res.Evals++
+				qn := fmt.Sprintf("[merge-shapes %s: %s]", name, describeQuery(q))
+				if qr.Err != nil || qr.QueryErr != nil {
+					res.Findings = append(res.Findings, fnd("query-error", "%s: %v %v", qn, qr.QueryErr, qr.Err))
+					continue
+				}
+				got := countOf(qr.Rows)
+				if len(qr.Rows) > 0 {
+					res.Nontrivial++
+				}
+				if o.c01 {
+					for i := range w.Rows {
+						r := &w.Rows[i]
+						if refmodel.RowSatisfiesPrefilter(r.Row, r.Partition, indexed, &pe) && got[r.Info.Canon] == 0 {
+							res.Findings = append(res.Findings, fnd("c01-prefilter-missing-after-merge", "C01 %s: row %s satisfies the prefilter with its own value but was not returned after the merge (blocks: %s)", qn, r.Info.Canon, siBlockRanges(si)))
+							break
+						}
+					}
+				}
+				if o.c02 {
+					checkBlockGranular(qn, qr, si, w, q, &res.Findings)
+				}
+				if len(res.Findings) > 10 {
+					return
+				}
+			}
+		}
+	}
+	for a := range intervals {
+		for b := range intervals {
+			if !triples {
+				for mask := 0; mask < 4; mask++ {
+					run([]int{a, b}, mask)
+				}
+				continue
+			}
+			for c := range intervals {
+				if (a+2*b+3*c)%3 != 0 {
+					continue // a third of the triples, each in two size assignments
+				}
+				run([]int{a, b, c}, 1)
+				run([]int{a, b, c}, 6)
+			}
+			if len(res.Findings) > 10 {
+				return res
+			}
+		}
+	}
+	for k := range outcomes {
+		res.Outcomes = append(res.Outcomes, k)
+	}
+	res.Sample = map[string]any{"intervals": intervals, "triples": triples}
+	return res
+}
+
+func siBlockRanges(si *storeIndex) string {
+	var parts []string
+	for _, b := range si.blocks {
+		parts = append(parts, fmt.Sprintf("%s@%d n=%v rows=%d", b.File, b.Meta.RowDataOffset, b.Meta.MinMaxIndexes["n"], len(b.Canon)))
+	}
+	return strings.Join(parts, "; ")
 }
